@@ -63,6 +63,12 @@ def obligations(tier: str):
         if T:
             add(f"tree_{dec}_f2b_create", fixture="f2b", rep="tree", decider=dec, max_depth=2)
             add(f"tree_{dec}_f5_create", fixture="f5", rep="tree", decider=dec, max_depth=2)
+    # --- union scoping (sibling names re-occurring in the alternatives) and standalone union members
+    for dec in ("grow", "full") + (("pi",) if T else ()):
+        add(f"tree_{dec}_f3n_create", fixture="f3n", rep="tree", decider=dec, max_depth=3)
+        add(f"tree_{dec}_f9_create", fixture="f9", rep="tree", decider=dec, max_depth=3 if not T else 4)
+    for rep in ("ge", "sge", "dsge"):
+        add(f"{rep}_f3n_create", fixture="f3n", rep=rep, decider="grow", max_depth=3 if rep != "dsge" else 4, gene_length=6 if rep == "ge" else 2)
     # --- tree variation operators
     for fxn in ("f1", "f3") + (("f2", "f4", "f5ctx") if T else ()):
         add(f"tree_grow_{fxn}_mutate", fixture=fxn, rep="tree", decider="grow", max_depth=2, ops=["mutate"])
